@@ -1,4 +1,5 @@
 import CotengraVerif.Lemmas.Crash
+import CotengraVerif.Lemmas.Reusable
 
 /-!
 # C15 — a crash while writing the on-disk cache never poisons later runs
@@ -339,6 +340,84 @@ theorem prefix_discipline_new_reader {E} (C : Codec E) (fs : FS) (split : Bool) 
       exact hpre j
   · simp only [lookupNew, readEntry,
       hother _ (isKeyPath_keyPath split k' hk') (fun e => hne (keyPath_inj split k' k e))]
+
+/-! ## the file protocol implements the abstract `disk` map of C14 -/
+
+section Refinement
+open Cotengra.Reusable
+
+/-- the un-crashed repaired writer installs exactly the new content at the key's file … -/
+theorem run_writeAtomic_self (fs : FS) (split : Bool) (k : Key) (tag : Name) (data : Bytes)
+    (hroot : fs.dirs [] = true) :
+    (fs.run (writeAtomic split k tag data)).files (keyPath split k) = some data := by
+  cases split
+  · simp only [FS.run, writeAtomic, Bool.false_eq_true, if_false, List.nil_append, List.foldl]
+    simp [FS.step, FS.canStep, tmpPath, keyPath, FS.parent, hroot, files_setFile, dirs_setFile]
+  · simp only [FS.run, writeAtomic, if_true, List.cons_append, List.nil_append, List.foldl]
+    simp [FS.step, FS.canStep, tmpPath, keyPath, FS.parent, files_setFile, dirs_setFile]
+
+theorem run_mem_crashStates (fs : FS) (ops : List Op) : fs.run ops ∈ crashStates fs ops := by
+  induction ops generalizing fs with
+  | nil => simp [FS.run, crashStates]
+  | cons op rest ih =>
+    simp only [FS.run, List.foldl_cons, crashStates, List.mem_cons, List.mem_append]
+    right; right
+    exact ih (fs.step op)
+
+/-- … and leaves every other key's entry as it was -/
+theorem run_writeAtomic_other (fs : FS) (split : Bool) (k : Key) (tag : Name) (data : Bytes)
+    (hroot : fs.dirs [] = true) (hk : hexName k = true) (k' : Key) (hk' : hexName k' = true)
+    (hne : k' ≠ k) :
+    (fs.run (writeAtomic split k tag data)).files (keyPath split k') = fs.files (keyPath split k') :=
+  (atomic_files fs split k tag data hroot hk _ (run_mem_crashStates _ _)).1 k' hk' hne
+
+/-- C14's abstract dictionary `dd` describes the directory `fs`: there is a directory, and for
+    every (hex) key what the process would find is what the files hold -/
+def Abs (C : Codec Con) (split : Bool) (fs : FS) (dd : DD Key) : Prop :=
+  ∀ k, hexName k = true → dd.view k = lookupNew C fs split k
+
+/-- **The file protocol implements C14's `disk` map.**  One query of a process with the default
+    policy: the file-system level reader/writer of C15 (`queryNew`) and the abstract policy of
+    C14 (`maybeRun`) give the same answer — a hit with the same entry, or a search whose result
+    is stored — and the abstraction relation is kept (so it holds along whole histories). -/
+theorem queryNew_refines_maybeRun (C : Codec Con) (hrt : ∀ v, C.parse (C.ser v) = some v)
+    (split : Bool) (tag : Name) (fs : FS) (dd : DD Key) (n : Nat) (k : Key) (w : Con)
+    (hroot : fs.dirs [] = true) (hk : hexName k = true) (habs : Abs C split fs dd) :
+    ((∃ e, (queryNew C split tag fs k w).2 = .hit e ∧
+        (maybeRun { overwrite := .no, cacheOnly := false } k w { dd := dd, searches := n }).2 = .ok false e) ∨
+     ((queryNew C split tag fs k w).2 = .searched w ∧
+        (maybeRun { overwrite := .no, cacheOnly := false } k w { dd := dd, searches := n }).2 = .ok true w)) ∧
+    Abs C split (queryNew C split tag fs k w).1
+      (maybeRun { overwrite := .no, cacheOnly := false } k w { dd := dd, searches := n }).1.dd := by
+  have hv := habs k hk
+  cases hl : lookupNew C fs split k with
+  | some e =>
+    rw [hl] at hv
+    rw [maybeRun_hit _ k w e _ hv rfl]
+    have hq : queryNew C split tag fs k w = (fs, .hit e) := by simp only [queryNew, hl]
+    rw [hq]
+    refine ⟨Or.inl ⟨e, rfl, rfl⟩, ?_⟩
+    intro k' hk'
+    simp only [DD.view_load]
+    exact habs k' hk'
+  | none =>
+    rw [hl] at hv
+    rw [maybeRun_missing _ k w _ hv rfl]
+    have hq : queryNew C split tag fs k w =
+        (fs.run (writeAtomic split k tag (C.ser w)), .searched w) := by simp only [queryNew, hl]
+    rw [hq]
+    refine ⟨Or.inr ⟨rfl, rfl⟩, ?_⟩
+    intro k' hk'
+    rw [DD.view_set]
+    by_cases e : k' = k
+    · subst e
+      simp only [if_true, lookupNew, readEntry, run_writeAtomic_self fs split k' tag _ hroot,
+        Option.bind_some, hrt]
+    · simp only [e, if_false, DD.view_load, lookupNew, readEntry,
+        run_writeAtomic_other fs split k tag _ hroot hk k' hk' e]
+      exact habs k' hk'
+
+end Refinement
 
 /-! ## non-vacuity: a concrete codec, directory and keys -/
 
